@@ -56,6 +56,8 @@ theorem EffsNoCb.appendBatch (fsHas : Nat → Bool) (es : List (LogId × Bytes))
     unfold Store.appendBatch
     have h1 := EffsNoCb.appendAndApply s fsHas (.append id p)
     split
+    · exact h
+    split
     · rename_i seg' s' e' heq
       rw [heq] at h1
       exact ih _ _ _ _ (h.append h1)
@@ -89,6 +91,8 @@ theorem EffsNoCb.call (s : Store) (fsHas : Nat → Bool) (op : Op) : EffsNoCb (s
           · exact .appendAndApply _ _ _
   | purge upto =>
     simp only [Store.call]
+    split
+    · exact .nil
     split
     · exact .nil
     · split
